@@ -142,6 +142,7 @@ def explore(pid, cases, rep, nontrivial, extra_checks=(), keep=None, use_corpus=
     # ideal grid for every pair and every target coordinate" is a THEOREM about the model's netlist
     # C09: the same hypotheses carry C09_xy_conditions_sound (XYCdg.v: the routes as emitted of an XY mesh induce an
     # acyclic dependency graph) -- beyond the property's quantifier (ID and source routing), counted under another name
+    xy_applies = set()
     if pid in ("C04", "C09"):
         key = "side_bisim" if pid == "C04" else "side_xy_mesh"
         acc = [i for i, m in enumerate(mods) if isinstance(m, list) and m and m[0] == "ok"
@@ -158,6 +159,7 @@ def explore(pid, cases, rep, nontrivial, extra_checks=(), keep=None, use_corpus=
                 flags = [b is True for b in sd[1:]]
                 if all(flags) and len(flags) == len(names):
                     stats[key + "_theorem_applies"] += 1
+                    xy_applies.add(i)
                 else:
                     for nm, b in zip(names, flags):
                         if not b:
@@ -246,6 +248,19 @@ def explore(pid, cases, rep, nontrivial, extra_checks=(), keep=None, use_corpus=
     for i, out in zip(idx, outs):
         if i in tree_applies and any(chk[0] == pid and chk[1] for chk in out):
             stats["side_tree_theorem_contradicted"] += 1
+    # C09 on XY meshes (beyond the quantifier: nothing is DECIDED there): where C09_xy_conditions_sound applies and the
+    # implementation emitted the model's netlist, the certified checker evaluated on the REAL output must agree with the
+    # theorem; a cycle would mean that extraction, driver or reader misrepresent what was proved
+    if pid == "C09" and xy_applies:
+        xi = [i for i in sorted(xy_applies) if res[i].get("ok") and "nl" in res[i]]
+        xouts = common.run_model(["(chk " + res[i]["nl"] + " " + common.sx(expected_args("C09", cases[i][0])) + ")" for i in xi])
+        for i, out in zip(xi, xouts):
+            if isinstance(out, list) and not any(chk[0] == "C09" and chk[1] for chk in out):
+                stats["side_xy_mesh_checker_agrees"] += 1
+            else:
+                stats["side_xy_mesh_theorem_contradicted"] += 1
+                rep.corr_broken(f"the certified checker finds a dependency cycle (or fails) on the real output of an XY mesh on which "
+                                f"C09_xy_conditions_sound applies: {cases[i][1]}: {str(out)[:200]}", {"desc": cases[i][0], "tags": cases[i][1]})
     for k, (d, t, msg, cid) in best.items():
         rep.fail(k if cid == pid else f"{pid}:via-{k}", msg, {"desc": d, "tags": t}, observed=msg,
                  expected="certified checker returns no failure")
